@@ -9,6 +9,8 @@ COMMON_ASSUMPTIONS = [
 
 PROPERTIES = {}
 
+TOKEN_FILES = ["util_tokenhelper/zz_verif_c19.go", "util_tokenhelper/zz_verif_c14rel.go"]
+
 PROPERTIES["C19"] = dict(
     explanation="symx executes tokenhelper.Converse/Inverse from the SSA of /repo's working tree with a symbolic token and symbolic operands; "
                 "every switch arm is a solver-decided fork and every assertion is one (check-sat pc ∧ ¬A) query over all operand values.",
@@ -20,9 +22,9 @@ PROPERTIES["C19"] = dict(
     exhaustive=True,
     assumptions=COMMON_ASSUMPTIONS,
     runs=[
-        dict(pkg="util/tokenhelper", files=["util_tokenhelper/zz_verif_c19.go"], entry="Harness_C19_K1_int", args=dict(sample_every=7)),
-        dict(pkg="util/tokenhelper", files=["util_tokenhelper/zz_verif_c19.go"], entry="Harness_C19_K1_uint", args=dict(sample_every=7)),
-        dict(pkg="util/tokenhelper", files=["util_tokenhelper/zz_verif_c19.go"], entry="Harness_C19_K1_string", args=dict(sample_every=7)),
+        dict(pkg="util/tokenhelper", files=TOKEN_FILES, entry="Harness_C19_K1_int", args=dict(sample_every=7)),
+        dict(pkg="util/tokenhelper", files=TOKEN_FILES, entry="Harness_C19_K1_uint", args=dict(sample_every=7)),
+        dict(pkg="util/tokenhelper", files=TOKEN_FILES, entry="Harness_C19_K1_string", args=dict(sample_every=7)),
         dict(pkg="assertion/function/assertiontree", files=["assertiontree/zz_verif_c02.go", "assertiontree/zz_verif_c02stmt.go", "assertiontree/zz_verif_c19k2b.go"], entry="Harness_C19_K2", native=False, args=dict(sample_every=17)),
         dict(pkg="assertion/function/assertiontree", files=["assertiontree/zz_verif_c02.go", "assertiontree/zz_verif_c02stmt.go", "assertiontree/zz_verif_c19k2b.go"], entry="Harness_C19_K2b", native=False, args=dict(sample_every=17)),
     ],
@@ -331,14 +333,16 @@ PROPERTIES["C07"] = dict(
 
 PROPERTIES["C14"] = dict(
     explanation="symx executes (*diagnostic.Engine).AddOverconstraintConflict on explanation chains of length 1-3 per side with symbolic positions, and NewEngine + (*Engine).toPos together with the REAL go/token "
-                "FileSet/File code they drive (AddFile, SetLines, AddLine, LineStart, Pos, Position) for real, fake (archive) and unknown files with a symbolic line and column.",
-    bounds=dict(quick="explanation chains <=3 per side, root by trigger or by annotation; files: 8-line real file, fake file with 1-4 known lines, unknown file; line 1..8, column 1..9; two diagnostics per file", thorough="same"),
-    outside=["existence of the files on disk, real drivers, PrintFullFilePath and the working directory (environment)", "lines beyond the fake file's 65536 fake lines",
+                "FileSet/File code they drive (AddFile, SetLines, AddLine, LineStart, Pos, Position) for real, fake (archive) and unknown files with a symbolic line and column. "
+                "File names: tokenhelper.RelToCwd with the real path/filepath code on an enumerated set of working directories and file locations - the name it returns, resolved against the working directory, must denote the same file (enumeration only: symbolic path strings were undecidable for all three solvers within the time limit).",
+    bounds=dict(quick="explanation chains <=3 per side, root by trigger or by annotation; files: 8-line real file, fake file with 1-4 known lines, unknown file; line 1..8, column 1..9; two diagnostics per file; RelToCwd: 2 working directories x 6 placements x 7 names", thorough="same"),
+    outside=["existence of the files on disk, real drivers, PrintFullFilePath, working directories and names other than the enumerated ones, symbolic links, Windows paths", "lines beyond the fake file's 65536 fake lines",
              "that each flow step's printed file:line:column exists (the steps' positions come from the analysed program)"],
     assumptions=COMMON_ASSUMPTIONS + ["os.Getwd returns a constant under symx (tokenhelper's initialiser is executed)", "explanations are harness implementations of inference.ExplainedBool (the engine's own carry an unexported type)"],
     runs=[
         dict(pkg="diagnostic", files=["diagnostic/zz_verif_c11.go", "diagnostic/zz_verif_c14.go", "diagnostic/zz_verif_c04k1.go"], entry="Harness_C14_Conflict", args=dict(sample_every=3)),
         dict(pkg="diagnostic", files=["diagnostic/zz_verif_c11.go", "diagnostic/zz_verif_c14.go", "diagnostic/zz_verif_c04k1.go"], entry="Harness_C14_ToPos", args=dict(sample_every=31)),
+        dict(pkg="util/tokenhelper", files=TOKEN_FILES, entry="Harness_C14_Rel", args=dict(sample_every=3)),
     ],
 )
 
